@@ -560,6 +560,19 @@ func (s *BlockListSpec) decode(content *hcl.BodyContent, blockLabels []blockLabe
 		}
 	}
 
+	if !cty.CanListVal(elems) {
+		// Unification can settle on the dynamic pseudo-type (when one block
+		// leaves a dynamically-typed attribute unset) without converting the
+		// other elements, which cannot form a list.
+		diags = append(diags, &hcl.Diagnostic{
+			Severity: hcl.DiagError,
+			Summary:  fmt.Sprintf("Unconsistent argument types in %s blocks", s.TypeName),
+			Detail:   "Corresponding attributes in all blocks of this type must be the same.",
+			Subject:  &sourceRanges[0],
+		})
+		return cty.DynamicVal, diags
+	}
+
 	return cty.ListVal(elems), diags
 }
 
@@ -845,6 +858,17 @@ func (s *BlockSetSpec) decode(content *hcl.BodyContent, blockLabels []blockLabel
 			}
 			elems[i] = newV
 		}
+	}
+
+	if !cty.CanSetVal(elems) {
+		// See the same situation in BlockListSpec.
+		diags = append(diags, &hcl.Diagnostic{
+			Severity: hcl.DiagError,
+			Summary:  fmt.Sprintf("Unconsistent argument types in %s blocks", s.TypeName),
+			Detail:   "Corresponding attributes in all blocks of this type must be the same.",
+			Subject:  &sourceRanges[0],
+		})
+		return cty.DynamicVal, diags
 	}
 
 	return cty.SetVal(elems), diags
